@@ -159,6 +159,8 @@ def install(ex):
                 return sv.SInt(e)
             if attr in ("data", "magnitude"):
                 return base
+            if attr == "units":
+                return sv.SObj(z3.Function("units_of", sv.RealS, sv.OpaqueS)(base.e), "units")
             if attr == "size":
                 e = z3.Function("size", sv.RealS, sv.IntS)(base.e)
                 path.assume(e >= 0)
@@ -179,6 +181,26 @@ def install(ex):
         return None
 
     ex.hooks.setdefault("isinstance", []).append(isinstance_hook)
+
+    # payload = one real number per location; the leading time axis has one entry: iterating over a payload yields
+    # that single time slice, stacking a one-element list gives the payload back (assumption listed in the evidence)
+    def seq_hook(ex, it, path, node):
+        if isinstance(it, sv.SPay):
+            from pyvc.expr import Seq
+            return Seq(z3.IntVal(1), lambda i, it=it: it)
+        return None
+
+    ex.hooks.setdefault("sequence", []).append(seq_hook)
+
+    def np_stack(ex, path, args, kwargs, node):
+        lst = args[0]
+        items = getattr(lst, "items", None)
+        if items is not None and len(items) == 1:
+            return ex.expect(items[0], sv.SPay, path, node)
+        raise Unsupported("np.stack of a list that is not a single time slice", node)
+
+    ex.ext_models["numpy.stack"] = np_stack
+    ex.ext_models["numpy.ma.stack"] = np_stack
 
     def may_share(ex, path, args, kwargs, node):
         a, b = args
